@@ -8,6 +8,10 @@ CHECKS = {
    text="For a depth-3 tree of real (re-bound) BaseGeo objects with symbolic common path length, every node's new pose after move / rotate (all anchor kinds, start values) / position= / orientation= is proved equal to one and the same rigid transformation of its old pose at the C09 index map (QF UF+LIA obligations on the real code), and the relative-pose invariance then follows from algebraic lemmas decided by a canonical normal form; frame obligations show that operating on a child leaves parent and siblings untouched. Arbitrary depth/arity is an induction stated as a meta-argument.",
    note="Assumes scipy Rotation group laws, check_format_input_vector's contract, equal path lengths in the tree (the property's own precondition); the field-invariance corollary rests on C03/C04.",
    technique="contract-based deductive verification: symbolic execution of the real code objects + z3; lemmas by normal form (free group x linear forms)"),
+ "C02": dict(level="proof",
+   text="Each BHJM_* wrapper (Cuboid, Cylinder, Sphere, CylinderSegment partial-angle and dispatcher, Tetrahedron, Triangle, Dipole, Circle, Polyline) is symbolically executed on one generic row for B,H,J,M with core field functions as uninterpreted row-wise stubs and symbolic mu_0; B=mu_0*H+J, J=mu_0*M, J in {0,polarization}, J=polarization strictly inside / 0 strictly outside, J=M=0 for currents/dipole/sheets are discharged by z3 for every compatible path combination, i.e. for every row of every batch. Magnet setters are checked against the exported constant and every field module's MU0 binding and near-mu_0 literals are audited. Known findings (cylinder edge, segment surface, setter constant) are proved on the complement of a recorded region.",
+   note="Assumes: cores are row-wise (C06), reals for doubles, tetrahedron point_inside symmetric under the chirality swap, TriangularMesh wrapper only via C06 + stand-in. Native random/special-row identities are a labelled bounded stand-in.",
+   technique="contract-based deductive verification: row-generic symbolic execution of the real wrappers + z3"),
 }
 _NB = "stand-in / contracts not built yet in this session (see DESIGN.md); not claimed"
 NA = {
